@@ -267,14 +267,17 @@ def read_cfg():
                 if isinstance(t, ast.Compare) and len(t.ops) == 1 and isinstance(t.ops[0], ast.In) and _is_name(t.left, "value") and _markers(t.comparators[0]):
                     cfg["g_err_exact"] = True
                 break
-    h = _fn(tree, "YncaCommandHandler", "handle")
-    if h is not None:
-        for n in ast.walk(h):
+    # every bytes.decode in the handler class (wherever the session loop keeps it) is lenient
+    hcls = next((n for n in ast.walk(tree) if isinstance(n, ast.ClassDef) and n.name == "YncaCommandHandler"), None)
+    if hcls is not None:
+        decs = []
+        for n in ast.walk(hcls):
             if isinstance(n, ast.Call) and isinstance(n.func, ast.Attribute) and n.func.attr == "decode":
                 args = [getattr(a, "value", None) for a in n.args]
                 kw = {k.arg: getattr(k.value, "value", None) for k in n.keywords}
                 errors = args[1] if len(args) > 1 else kw.get("errors")
-                cfg["g_lenient"] = (args[:1] == ["utf-8"] or kw.get("encoding") == "utf-8") and errors == "replace"
+                decs.append((args[:1] == ["utf-8"] or kw.get("encoding") == "utf-8") and errors == "replace")
+        cfg["g_lenient"] = bool(decs) and all(decs)
     # fill_from_file: JSON string lines decoded?
     ff = _fn(tree, "YncaDataStore", "fill_from_file")
     g_json = False
